@@ -305,6 +305,9 @@ func solveAll(obls []*Obligation, dir string, timeoutMs int, workers int, agree 
 		}()
 	}
 	for _, o := range obls {
+		if o.Result != "" {
+			continue // already decided (rebind.go solves a candidate's obligations before accepting it)
+		}
 		ch <- o
 	}
 	close(ch)
